@@ -156,3 +156,8 @@ DAGS["a0_a_p_b_rev"] = T(["A0", "A", "P", "B"], [("A0", "A"), ("A", "P"), ("P", 
 DAGS["a0_a_p_b"] = T(["A0", "A", "P", "B"], [("A0", "A"), ("A", "P"), ("P", "B")])
 # one consumer reading two pull-based components in parallel
 DAGS["two_pulls_parallel"] = T(["A", "B", "P", "PQ", "C"], [("A", "P"), ("B", "PQ"), ("P", "C"), ("PQ", "C")])
+
+# consumer dragged ahead by ITS consumer while reading its own source through a delay-to-pull adapter
+DAGS["a_dpull_b_c"] = T(["A", "B", "C"], [("A", "B", ["dpull1"]), ("B", "C")], order=[2, 1, 0])
+# ring through a pull-based component with the (sufficient) delay directly downstream of it
+RINGS_OK["ring2_pull_delay_after"] = T([NP("A"), "P", "B"], [("A", "P"), ("P", "B", ["dfix"]), ("B", "A")])
